@@ -1,0 +1,25 @@
+//go:build verif
+
+// Package vhook provides named no-op points that a verification harness can
+// observe. It is compiled in only with the "verif" build tag.
+package vhook
+
+import "sync/atomic"
+
+var callback atomic.Pointer[func(name string)]
+
+// Set installs f as the callback invoked by At. Passing nil removes it.
+func Set(f func(name string)) {
+	if f == nil {
+		callback.Store(nil)
+		return
+	}
+	callback.Store(&f)
+}
+
+// At reports that the calling goroutine reached the named point.
+func At(name string) {
+	if f := callback.Load(); f != nil {
+		(*f)(name)
+	}
+}
